@@ -24,6 +24,10 @@ inductive Err where
   | unknownFunction  -- NoFunctionRegisteredException
   | key | index | zeroDiv | type | stopIteration | value | attribute
   | sortMixed        -- an ordering raises, and which exception comes first depends on the sort algorithm
+  | ambiguous        -- AmbiguousMethodException (two overloads accept the receiver, e.g. `delete` on a dict under yaql.iterableDicts)
+  | tooLarge         -- CollectionTooLargeException (yaql.limitIterators)
+  | unknownMethod    -- NoMethodRegisteredException (e.g. a set method in a context made with `no_sets`)
+  | wrappedStop      -- WrappedException: a StopIteration met while the HOST consumes a lazy result (`yaql.convertOutputData` off)
   | outOfDomain      -- input outside the modelled domain (no prediction)
 deriving DecidableEq, Repr, Inhabited
 
@@ -608,7 +612,10 @@ def groupAggM (agg : Lam) (failure : Option Err) (fallback : Bool) : List (Value
         else none
       match fb with
       | some r => let t := groupAggM agg (some failure) fallback rest; ⟨r :: t.items, t.err⟩
-      | none => ⟨[], some failure⟩
+      | none =>
+        -- (what the retried aggregator does is not followed: no prediction at all)
+        if fallback && (match agg.eval (tuple [k, list vs]) with | .error .outOfDomain => true | _ => false)
+        then ⟨[], some .outOfDomain⟩ else ⟨[], some failure⟩
     match failure with
     | some f => tryFallback f
     | none =>
@@ -740,19 +747,65 @@ def viewElems : ViewKind → KV → VL
   | .values, d => dictValues d
   | .items, d => dictItems d
 
+/-! ### the engine options and context flags the collection functions and the finaliser look at
+
+A `Statement` is evaluated under the options of the engine that parsed it (`YaqlFactory.create(options)`,
+`engine.copy(options)`, `engine(text, options)`), in a context whose standard library was registered by
+`yaql.create_context(..)` with ITS flags (`group_by_agg_fallback`, `no_sets`).  Every definition below that depends on an
+option or a flag takes the record. -/
+
+structure Opts where
+  /-- `yaql.iterableDicts`: a parameter declared `Iterable()` accepts a dictionary (and iterates its keys) -/
+  iterableDicts : Bool := false
+  /-- `yaql.convertTuplesToLists`: the finaliser turns tuples (yaql's immutable lists) into lists -/
+  tuplesToLists : Bool := true
+  /-- `yaql.convertSetsToLists`: the finaliser turns sets into lists -/
+  setsToLists : Bool := true
+  /-- `yaql.convertInputData`: the document is converted (`convert_input_data`) before it is bound to `$` -/
+  convertInput : Bool := true
+  /-- `yaql.limitIterators` (`none` = unlimited) -/
+  limit : Option Nat := none
+  /-- `yaql.convertOutputData`: the result passes `convert_output_data`; off, `evaluate()` hands the run-time object out -/
+  convertOutput : Bool := true
+  /-- `create_context(group_by_agg_fallback=..)`: `groupBy` retries a failing aggregator in the pre-1.1.1 style -/
+  aggFallback : Bool := true
+  /-- `create_context(no_sets=True)`: the set functions are not registered -/
+  noSets : Bool := false
+deriving Repr, DecidableEq, Inhabited
+
+/-- `utils.limit_iterable` over a one-shot iterator: after `n` elements the next pull raises - if there is a next
+    element (the source is asked first, so its own failure at that position comes first) -/
+def LSeq.limitTo (n : Nat) (s : LSeq) : LSeq :=
+  if s.items.length > n then ⟨s.items.take n, some .tooLarge⟩ else s
+
+/-- `limit_iterable` over a sized collection (sequence, set, mapping, keys / items view): checked when the argument is
+    converted -/
+def limitSized (opts : Opts) (l : VL) : R LSeq :=
+  match opts.limit with
+  | some n => if l.length > n then .error .tooLarge else .ok ⟨l, none⟩
+  | none => .ok ⟨l, none⟩
+
+def limitLazy (opts : Opts) (s : LSeq) : LSeq :=
+  match opts.limit with
+  | some n => s.limitTo n
+  | none => s
+
 /-- how a parameter declared `Iterable()` sees the object. `ordered`: the consumer depends on
     the iteration order.  `none` = the overload does not accept the receiver. -/
-def Obj.iterable? (ordered : Bool) : Obj → Option (R LSeq)
-  | .val (tuple l) | .val (list l) | .val (Value.set l) | .val (iter l) => some (.ok ⟨l, none⟩)
-  | .dset l => some (if ordered && l.length > 1 then .error .outOfDomain else .ok ⟨l, none⟩)
-  | .lazy s => some (.ok s)
+def Obj.iterable? (opts : Opts) (ordered : Bool) : Obj → Option (R LSeq)
+  | .val (tuple l) | .val (list l) | .val (Value.set l) => some (limitSized opts l)
+  | .val (iter l) => some (.ok (limitLazy opts ⟨l, none⟩))
+  | .dset l => some (do let s ← limitSized opts l; if ordered && l.length > 1 then .error .outOfDomain else pure s)
+  | .lazy s => some (.ok (limitLazy opts s))
   | .ordering src fs =>
-    some (.ok (match src.err with
+    some (.ok (limitLazy opts (match src.err with
       | some e => ⟨[], some e⟩
-      | none => match sortRun fs src.items with | .ok l => ⟨l, none⟩ | .error e => ⟨[], some e⟩))
-  | .view k d => some (.ok ⟨viewElems k d, none⟩)
+      | none => match sortRun fs src.items with | .ok l => ⟨l, none⟩ | .error e => ⟨[], some e⟩)))
+  | .view .values d => some (.ok (limitLazy opts ⟨dictValues d, none⟩))
+  | .view k d => some (limitSized opts (viewElems k d))
+  -- `yaql.iterableDicts`: a dictionary is the collection of its keys
+  | .val (dict d) | .mdict d => if opts.iterableDicts then some (limitSized opts (dictKeys d)) else none
   | .val _ => none
-  | .mdict _ => none
   | .opaque _ => none
 
 /-- error of a method whose receiver is not accepted -/
@@ -760,8 +813,8 @@ def badReceiver : Obj → Err
   | .val (str _) => .outOfDomain    -- strings have their own `len`, `replace`, `indexOf`, `join`...
   | _ => .noMethod
 
-def Obj.it (o : Obj) (ordered : Bool := true) : R LSeq :=
-  match o.iterable? ordered with
+def Obj.it (o : Obj) (opts : Opts) (ordered : Bool := true) : R LSeq :=
+  match o.iterable? opts ordered with
   | some r => r
   | none => .error (badReceiver o)
 
@@ -787,10 +840,47 @@ def Obj.ofValue : Value → Obj
   | iter l => .lazy ⟨l, none⟩
   | v => .val v
 
-/-! ### finalisation (`convert_output_data` with `convertSetsToLists`) -/
+/-! ### input conversion (`convert_input_data`) and finalisation (`convert_output_data`) -/
 
 mutual
-/-- conversion succeeds: no dict has a key that turns into an unhashable list / dict -/
+/-- `utils.convert_input_data`: host sequences become tuples, mappings FrozenDicts, sets frozensets; the members of a
+    one-shot iterator are converted as they are pulled -/
+def convertInput : Value → Value
+  | tuple l | list l => tuple (convertInputL l)
+  | Value.set l => Value.set (convertInputL l)
+  | iter l => iter (convertInputL l)
+  | dict d => dict (convertInputP d)
+  | v => v
+def convertInputL : List Value → List Value
+  | [] => []
+  | x :: xs => convertInput x :: convertInputL xs
+def convertInputP : List (Value × Value) → List (Value × Value)
+  | [] => []
+  | (k, v) :: r => (convertInput k, convertInput v) :: convertInputP r
+end
+
+mutual
+/-- a host document the model can hold unconverted: no dictionary below the top level (`Value.dict` is the hashable
+    FrozenDict; a plain dict exists only as the run-time object `Obj.mdict`) -/
+def noDict : Value → Bool
+  | dict _ => false
+  | tuple l | list l | Value.set l | iter l => noDictL l
+  | _ => true
+def noDictL : List Value → Bool
+  | [] => true
+  | x :: xs => noDict x && noDictL xs
+end
+
+/-- what `$` is bound to: `Statement.evaluate(data=...)` converts the document unless `yaql.convertInputData` is off -/
+def Obj.ofInput (opts : Opts) (data : Value) : R Obj :=
+  if opts.convertInput then .ok (Obj.ofValue (convertInput data))
+  else match data with
+    | dict d => if noDictL (dictValues d) then .ok (.mdict d) else .error .outOfDomain
+    | v => if noDict v then .ok (Obj.ofValue v) else .error .outOfDomain
+
+mutual
+/-- conversion succeeds: no dict has a key that turns into an unhashable list / dict (the default options; used by
+    Model/Eval.lean) -/
 def finOk : Value → Bool
   | tuple l | list l | Value.set l | iter l => finOkL l
   | dict d => finOkP d
@@ -804,18 +894,119 @@ def finOkP : List (Value × Value) → Bool
     (match k with | tuple _ | list _ | Value.set _ | iter _ | dict _ => false | _ => true) && finOk v && finOkP r
 end
 
-def finalise (o : Obj) : R Value := do
-  let v : Value ← match o with
-    | .val (iter l) => pure (list l)
-    | .val v => pure v
-    | .dset l => pure (Value.set l)
-    -- keys() / values() / items(): a list of the keys / values / `[key, value]` pairs in the dictionary's order
-    -- (`convert_output_data` has a branch for `KeysView` / `ItemsView` before its `Set` branch)
-    | .view k d => pure (list (viewElems k d))
-    | .mdict d => pure (dict d)
-    | .opaque v => pure v
-    | o => do let s ← o.it; let xs ← s.toList; pure (list xs)
-  if finOk v then pure v else .error .type
+mutual
+/-- `hash()` of a finalised value does not raise: lists, dicts and (mutable) sets are unhashable -/
+def outHashable : Value → Bool
+  | list _ | dict _ | Value.set _ | iter _ => false
+  | tuple l => outHashableL l
+  | _ => true
+def outHashableL : List Value → Bool
+  | [] => true
+  | x :: xs => outHashable x && outHashableL xs
+end
+
+def overLimit (opts : Opts) (n : Nat) : Bool :=
+  match opts.limit with
+  | some k => n > k
+  | none => false
+
+mutual
+/-- `utils.convert_output_data` under the engine's options: tuples become lists unless `convertTuplesToLists` is off
+    (a mutable list stays a list), sets become lists with `convertSetsToLists` and Python sets otherwise (their converted
+    members must be hashable), a generator inside the data is consumed into a list, a dict's value is converted before
+    its key and the converted key must be hashable; every level is passed through the limiter first -/
+def finV (opts : Opts) : Value → R Value   -- (`Value.set` in the result: a Python set, or with `convertSetsToLists` a list in unknown order)
+  | tuple l => do
+    if overLimit opts l.length then .error .tooLarge
+    let r ← finL opts l
+    pure (if opts.tuplesToLists then list r else tuple r)
+  | list l => do
+    if overLimit opts l.length then .error .tooLarge
+    let r ← finL opts l
+    pure (list r)
+  | iter l => do
+    let r ← finLim opts (match opts.limit with | some k => k | none => l.length) l
+    pure (list r)
+  | Value.set l => do
+    if overLimit opts l.length then .error .tooLarge
+    -- the members are converted (and, for a Python set, hashed) one by one in the set's iteration order, which the model
+    -- does not know: when they fail in different ways only "raises" is predicted
+    match finSetErrs opts l with
+    | e :: rest => if rest.all (· == e) then .error e else .error .sortMixed
+    | [] => do
+      let r ← finL opts l
+      -- with `convertSetsToLists` the result is the LIST of the members in that order: `Value.set` stands for it as well
+      -- (the comparison decides list / set from the options)
+      pure (Value.set r)
+  | dict d => do
+    if overLimit opts d.length then .error .tooLarge
+    let r ← finP opts d
+    pure (dict r)
+  | v => pure v
+def finL (opts : Opts) : List Value → R (List Value)
+  | [] => pure []
+  | x :: xs => do let x' ← finV opts x; let r ← finL opts xs; pure (x' :: r)
+/-- how the members of a set fail to be finalised (conversion, then - for a Python set - hashing) -/
+def finSetErrs (opts : Opts) : List Value → List Err
+  | [] => []
+  | x :: xs =>
+    (match finV opts x with
+     | .error e => [e]
+     | .ok v => if !opts.setsToLists && !outHashable v then [.type] else []) ++ finSetErrs opts xs
+/-- a lazily limited generator: the element after the `k`-th raises -/
+def finLim (opts : Opts) : Nat → List Value → R (List Value)
+  | _, [] => pure []
+  | 0, _ :: _ => .error .tooLarge
+  | k + 1, x :: xs => do let x' ← finV opts x; let r ← finLim opts k xs; pure (x' :: r)
+def finP (opts : Opts) : List (Value × Value) → R (List (Value × Value))
+  | [] => pure []
+  | (k, v) :: r => do
+    let v' ← finV opts v
+    let k' ← finV opts k
+    if !outHashable k' then .error .type
+    let r' ← finP opts r
+    pure ((k', v') :: r')
+end
+
+/-- with `yaql.convertOutputData` off `evaluate()` hands the run-time object out as it is - a tuple, a (mutable) list, a
+    frozenset (`Value.set`; so are the keys / items views), a dictionary, or something lazy (`iter`: what the host gets when
+    it consumes it, an exception if consuming raises).  No limiter is put around the result. -/
+def hostConsumes (s : LSeq) : R Value :=
+  match s.err with
+  | none => .ok (iter s.items)
+  -- yaql wraps a StopIteration that leaves a function call (it must not end the generators on the way); only `evaluate()`
+  -- unwraps it again - the host that consumes the result itself meets the wrapper
+  | some .stopIteration => .error .wrappedStop
+  | some e => .error e
+
+def rawOut (opts : Opts) : Obj → R Value
+  | .val v => .ok v
+  | .dset l => .ok (Value.set l)
+  | .view .values d => .ok (iter (dictValues d))
+  | .view k d => .ok (Value.set (viewElems k d))
+  | .mdict d => .ok (dict d)
+  | .opaque v => .ok v
+  | .lazy s => hostConsumes s
+  | o => do let s ← o.it { opts with limit := none }; hostConsumes s
+
+/-- the finalised result of a run-time object -/
+def finalise (opts : Opts) (o : Obj) : R Value :=
+  if !opts.convertOutput then rawOut opts o else
+  match o with
+  | .val v => finV opts v
+  | .dset l => finV opts (Value.set l)
+  -- keys() / items(): set-like views, finalised to the list of the keys / of the `[key, value]` pairs in the
+  -- dictionary's order (`convert_output_data` has a branch for them before its `Set` branch); values(): an iterable
+  | .view .values d => finV opts (iter (dictValues d))
+  | .view k d => finV opts (list (viewElems k d))
+  | .mdict d => finV opts (dict d)
+  | .opaque v => finV opts v
+  | o => do
+    let s ← o.it opts
+    let r ← finL opts s.items
+    match s.err with
+    | some e => .error e
+    | none => pure (list r)
 
 /-! ### the operations -/
 
@@ -871,19 +1062,23 @@ deriving Repr, Inhabited
 def optLam (l : Option Lam) : Lam := l.getD .arg
 
 /-- `aggregate(collection, f, seed)` as used by sum / min / max -/
-def reduceWith (f : Value → Value → R Value) (seed : Option Value) (o : Obj) : R Obj := do
-  let s ← o.it
+def reduceWith (opts : Opts) (f : Value → Value → R Value) (seed : Option Value) (o : Obj) : R Obj := do
+  let s ← o.it opts
   let r ← reduceM f seed s
   pure (.val r)
 
 /-- `value in collection` -/
-def memberOf (o : Obj) (v : Value) (err : Err) : R Obj :=
+def memberOf (opts : Opts) (o : Obj) (v : Value) (err : Err) : R Obj :=
   match o with
-  | .val (Value.set l) | .dset l => if hashable v then .ok (.val (bool (sMem l v))) else .error .type
-  | .view .keys d => if hashable v then .ok (.val (bool (dHas d v))) else .error .type
+  | .val (Value.set l) | .dset l => do
+    let _ ← limitSized opts l
+    if hashable v then .ok (.val (bool (sMem l v))) else .error .type
+  | .view .keys d => do
+    let _ ← limitSized opts (dictKeys d)
+    if hashable v then .ok (.val (bool (dHas d v))) else .error .type
   | .view .items _ => .error .outOfDomain
   | o =>
-    match o.iterable? true with
+    match o.iterable? opts true with
     | none => .error err
     | some r => do
       let s ← r
@@ -948,59 +1143,70 @@ def generateManyM (producer : Lam) (sel : Option Lam) (decycle depthFirst : Bool
                   (if decycle then item :: past else past)
                 ⟨out :: t.items, t.err⟩
 
+mutual
+/-- is a collection nested in the value longer than `n`? -/
+def overNested (n : Nat) : Value → Bool
+  | tuple l | list l | Value.set l | iter l => l.length > n || overNestedL n l
+  | _ => false
+def overNestedL (n : Nat) : List Value → Bool
+  | [] => false
+  | x :: xs => overNested n x || overNestedL n xs
+end
+
 def intArgs : VL → Option (List Int)
   | [] => some []
   | int i :: r => (intArgs r).map (i :: ·)
   | Value.bool b :: r => (intArgs r).map ((if b then 1 else 0) :: ·)   -- parameters typed plain `int` take booleans
   | _ => none
 
-def runOp1 (op : Op) (o : Obj) : R Obj :=
+def runOp1 (opts : Opts) (op : Op) (o : Obj) : R Obj :=
   match op with
-  | .where_ p => do let s ← o.it; pure (.lazy (LSeq.filterM p.test s.items s.err))
-  | .select f => do let s ← o.it; pure (.lazy (LSeq.mapM f.eval s.items s.err))
+  | .where_ p => do let s ← o.it opts; pure (.lazy (LSeq.filterM p.test s.items s.err))
+  | .select f => do let s ← o.it opts; pure (.lazy (LSeq.mapM f.eval s.items s.err))
   | .attr name =>
     match o with
     | .val (dict d) => match dGet d (str name) with | some v => .ok (.val v) | none => .error .key
-    | o => match o.iterable? true with
+    | o => match o.iterable? opts true with
       | some r => do let s ← r; pure (.lazy (LSeq.mapM (fun x => memberV x name) s.items s.err))
       | none => match o with | .val (str _) => .error .outOfDomain | _ => .error .unknownFunction
-  | .skip n => do let s ← o.it; if n < 0 then .error .value else pure (.lazy (s.drop n.toNat))
-  | .take n => do let s ← o.it; if n < 0 then .error .value else pure (.lazy (s.take n.toNat))
-  | .append args => do let s ← o.it; pure (.lazy (s.thenList args))
-  | .distinct key => do let s ← o.it; pure (.lazy (distinctM (optLam key).eval [] s.items s.err))
-  | .enumerate start => do let s ← o.it; pure (.lazy (s.lift (enumerateFrom (start.getD 0))))
+  | .skip n => do let s ← o.it opts; if n < 0 then .error .value else pure (.lazy (s.drop n.toNat))
+  | .take n => do let s ← o.it opts; if n < 0 then .error .value else pure (.lazy (s.take n.toNat))
+  | .append args => do let s ← o.it opts; pure (.lazy (s.thenList args))
+  | .distinct key => do let s ← o.it opts; pure (.lazy (distinctM (optLam key).eval [] s.items s.err))
+  | .enumerate start => do let s ← o.it opts; pure (.lazy (s.lift (enumerateFrom (start.getD 0))))
   | .any_ p => do
-    let s ← o.it
+    let s ← o.it opts
     let hit ← LSeq.findM (match p with | none => fun _ => .ok true | some l => l.test) 0 s.items s.err
     pure (.val (bool hit.isSome))
   | .all_ p => do
-    let s ← o.it
+    let s ← o.it opts
     let hit ← LSeq.findM (fun x => do let b ← (optLam p).test x; pure (!b)) 0 s.items s.err
     pure (.val (bool hit.isNone))
-  | .concat colls => do let s ← o.it; pure (.lazy (s.thenList colls.flatten))
+  | .concat colls => do let s ← o.it opts; pure (.lazy (s.thenList colls.flatten))
   | .len =>
     match o with
     | .val (tuple l) | .val (list l) | .val (Value.set l) | .dset l => .ok (.val (int l.length))
     | .val (dict d) | .view .keys d | .view .items d => .ok (.val (int d.length))
-    | .val (iter l) => .ok (.val (int l.length))
-    | .lazy s => do let xs ← s.toList; pure (.val (int xs.length))
+    | .val (iter _) | .lazy _ => do let s ← o.it opts; let xs ← s.toList; pure (.val (int xs.length))   -- (the `Iterator()` overload)
     | .val (str _) => .error .outOfDomain
     | _ => .error .noMethod
-  | .count => do let s ← o.it false; let xs ← s.toList; pure (.val (int xs.length))
+  | .count => do let s ← o.it opts false; let xs ← s.toList; pure (.val (int xs.length))
   | .memorize =>
     match o with
     | .val (iter l) => lazyOk l
     | .val (str _) => .error .outOfDomain
-    | .val (tuple _) | .val (list _) | .val (Value.set _) | .dset _ | .view .keys _ | .view .items _ => .ok o
-    | o => do let s ← o.it; pure (.lazy s)
-  | .sum init => reduceWith plus init o
-  | .max_ init => reduceWith maxV init o
-  | .min_ init => reduceWith minV init o
-  | .first dflt => do let s ← o.it; let r ← firstOf s dflt; pure (.val r)
-  | .single => do let s ← o.it; let r ← singleOf s; pure (.val r)
-  | .last dflt => do let s ← o.it; let r ← lastOf s dflt; pure (.val r)
+    | .val (tuple _) | .val (list _) | .val (Value.set _) | .dset _ | .view .keys _ | .view .items _ => do
+      let _ ← o.it opts false; pure o
+    | .val (dict _) => do let _ ← o.it opts false; pure o       -- (`yaql.iterableDicts`: a sized collection is handed back as it is)
+    | o => do let s ← o.it opts; pure (.lazy s)
+  | .sum init => reduceWith opts plus init o
+  | .max_ init => reduceWith opts maxV init o
+  | .min_ init => reduceWith opts minV init o
+  | .first dflt => do let s ← o.it opts; let r ← firstOf s dflt; pure (.val r)
+  | .single => do let s ← o.it opts; let r ← singleOf s; pure (.val r)
+  | .last dflt => do let s ← o.it opts; let r ← lastOf s dflt; pure (.val r)
   | .selectMany f => do
-    let s ← o.it
+    let s ← o.it opts
     pure (.lazy (LSeq.flatMapM (fun x => do
       let v ← f.eval x
       match v with
@@ -1008,9 +1214,11 @@ def runOp1 (op : Op) (o : Obj) : R Obj :=
       | v => pure (if isIterable v then elems v else [v])) s.items s.err))
   | .range1 stop => lazyOk (range 0 stop 1)
   | .range3 a b step => if step == some 0 then .error .value else lazyOk (range a b (step.getD 1))
-  | .sequenceTake a st n => if n < 0 then .error .value else lazyOk (sequenceTake (a.getD 0) (st.getD 1) n.toNat)
-  | .orderBy k => do let s ← o.it; pure (.ordering s [(k, true)])
-  | .orderByDescending k => do let s ← o.it; pure (.ordering s [(k, false)])
+  | .sequenceTake a st n =>
+    -- (the endless sequence is `take`'s receiver: it passes the limiter)
+    if n < 0 then .error .value else pure (.lazy (limitLazy opts ⟨sequenceTake (a.getD 0) (st.getD 1) n.toNat, none⟩))
+  | .orderBy k => do let s ← o.it opts; pure (.ordering s [(k, true)])
+  | .orderByDescending k => do let s ← o.it opts; pure (.ordering s [(k, false)])
   | .thenBy k => match o with
     | .ordering s fs => .ok (.ordering s (fs ++ [(k, true)]))
     | o => .error (badReceiver o)
@@ -1018,7 +1226,7 @@ def runOp1 (op : Op) (o : Obj) : R Obj :=
     | .ordering s fs => .ok (.ordering s (fs ++ [(k, false)]))
     | o => .error (badReceiver o)
   | .groupBy k v agg => do
-    let s ← o.it
+    let s ← o.it opts
     let xs ← (match s.err with
       | none => pure s.items
       | some e => -- the grouping loop runs over the prefix first: a lambda failure there comes earlier
@@ -1026,52 +1234,53 @@ def runOp1 (op : Op) (o : Obj) : R Obj :=
     let g ← groupsM k v xs []
     match agg with
     | none => lazyOk (g.map fun p => tuple [p.1, list p.2])
-    | some a => pure (.lazy (groupAggM a none true g))
+    | some a => pure (.lazy (groupAggM a none opts.aggFallback g))
   | .zip colls => do
-    let s ← o.it
+    let s ← o.it opts
     let ss := s :: colls.map LSeq.ofList
     pure (.lazy (zipM ss (s.items.length + 1) 0))
   | .zipLongest colls dflt => do
-    let s ← o.it
+    let s ← o.it opts
     let rows := zipLongest (dflt.getD null) (s.items :: colls)
     -- the receiver is asked first in every row: its failure ends the zip at row `len(items)`
     pure (.lazy (match s.err with | none => ⟨rows, none⟩ | some e => ⟨rows.take s.items.length, some e⟩))
   | .join other pred sel => do
-    let s ← o.it
+    let s ← o.it opts
     pure (.lazy (joinM pred sel (LSeq.ofList other) s.items s.err))
   | .repeatTake times n =>
     match o, times, n with
     | .val (iter _), _, _ | .lazy _, _, _ | .ordering _ _, _, _ | .view _ _, _, _ | .dset _, _, _ | .mdict _, _, _ | .opaque _, _, _ => .error .outOfDomain
     | .val v, some t, none => if t < 0 then .error .outOfDomain else lazyOk (repeatN v t.toNat)
-    | .val v, some t, some n => if n < 0 then .error .value else lazyOk (repeatN v (if t < 0 then n.toNat else min t.toNat n.toNat))
-    | .val v, none, some n => if n < 0 then .error .value else lazyOk (repeatN v n.toNat)
+    | .val v, some t, some n =>
+      if n < 0 then .error .value else pure (.lazy (limitLazy opts ⟨repeatN v (if t < 0 then n.toNat else min t.toNat n.toNat), none⟩))
+    | .val v, none, some n => if n < 0 then .error .value else pure (.lazy (limitLazy opts ⟨repeatN v n.toNat, none⟩))
     | .val _, none, none => .error .outOfDomain
   | .cycleTake n => do
-    let s ← o.it
+    let s ← o.it opts
     if n < 0 then .error .value
     else
       -- cycle pulls the source while it delivers; only a failure met within the first `n` pulls shows
-      if n.toNat ≤ s.items.length then pure (.lazy ⟨s.items.take n.toNat, none⟩)
+      if n.toNat ≤ s.items.length then pure (.lazy (limitLazy opts ⟨s.items.take n.toNat, none⟩))
       else match s.err with
-        | some e => pure (.lazy ⟨s.items, some e⟩)
-        | none => lazyOk (cycleTake s.items n.toNat)
-  | .takeWhile p => do let s ← o.it; pure (.lazy (LSeq.takeWhileM p.test s.items s.err))
-  | .skipWhile p => do let s ← o.it; pure (.lazy (LSeq.dropWhileM p.test s.items s.err))
+        | some e => pure (.lazy (limitLazy opts ⟨s.items, some e⟩))
+        | none => pure (.lazy (limitLazy opts ⟨cycleTake s.items n.toNat, none⟩))
+  | .takeWhile p => do let s ← o.it opts; pure (.lazy (LSeq.takeWhileM p.test s.items s.err))
+  | .skipWhile p => do let s ← o.it opts; pure (.lazy (LSeq.dropWhileM p.test s.items s.err))
   | .indexOf v => do
-    let s ← o.it
+    let s ← o.it opts
     let hit ← LSeq.findM (fun x => .ok (pyEq x v)) 0 s.items s.err
     pure (.val (int (match hit with | some (i, _) => i | none => -1)))
-  | .lastIndexOf v => do let s ← o.it; let xs ← s.toList; pure (.val (int (lastIndexOf v xs)))
+  | .lastIndexOf v => do let s ← o.it opts; let xs ← s.toList; pure (.val (int (lastIndexOf v xs)))
   | .indexWhere p => do
-    let s ← o.it
+    let s ← o.it opts
     let hit ← LSeq.findM p.test 0 s.items s.err
     pure (.val (int (match hit with | some (i, _) => i | none => -1)))
   | .lastIndexWhere p => do
-    let s ← o.it
+    let s ← o.it opts
     let flags ← (LSeq.mapM p.eval s.items s.err).toList
     pure (.val (int (lastIndexWhere truthy flags)))
   | .slice n => do
-    let s ← o.it
+    let s ← o.it opts
     if n < 0 then
       -- islice(it, n) raises inside the generator: lazily, before anything is pulled
       pure (.lazy ⟨[], some .value⟩)
@@ -1082,12 +1291,12 @@ def runOp1 (op : Op) (o : Obj) : R Obj :=
       | none => lazyOk chunks
       | some e => pure (.lazy ⟨if n == 0 then [] else (chunks.take (s.items.length / n.toNat)), if n == 0 then none else some e⟩)
   | .splitWhere p => do
-    let s ← o.it
+    let s ← o.it opts
     match s.err with
     | some e => pure (.lazy ⟨[], some e⟩)
     | none => pure (.lazy (splitWhereM p.test [] s.items))
   | .sliceWhere p => do
-    let s ← o.it
+    let s ← o.it opts
     match s.err with
     | some e => pure (.lazy ⟨[], some e⟩)
     | none =>
@@ -1097,19 +1306,19 @@ def runOp1 (op : Op) (o : Obj) : R Obj :=
         | .error e => pure (.lazy ⟨[], some e⟩)
         | .ok v => pure (.lazy (sliceWhereM p.eval [x] v xs))
   | .splitAt i => do
-    let s ← o.it
+    let s ← o.it opts
     let xs ← s.toList
     let (a, b) := splitAt i xs
     pure (.val (list [tuple a, tuple b]))
-  | .aggregate f seed => reduceWith f.eval seed o
+  | .aggregate f seed => reduceWith opts f.eval seed o
   | .accumulate f seed => do
-    let s ← o.it
+    let s ← o.it opts
     match seed, s.items, s.err with
     | some a, xs, e => pure (.lazy (LSeq.cons [a] (scanM2 f.eval a xs e)))
     | none, [], none => pure (.lazy ⟨[], some .type⟩)
     | none, [], some e => pure (.lazy ⟨[], some e⟩)
     | none, x :: xs, e => pure (.lazy (LSeq.cons [x] (scanM2 f.eval x xs e)))
-  | .reverse => do let s ← o.it; let xs ← s.toList; lazyOk xs.reverse
+  | .reverse => do let s ← o.it opts; let xs ← s.toList; lazyOk xs.reverse
   | .mergeWith other lm im lvl =>
     match o.asDict? with
     | none => .error (badReceiver o)
@@ -1117,7 +1326,11 @@ def runOp1 (op : Op) (o : Obj) : R Obj :=
       let lmF (a b : Value) : R Value := match lm with
         | some l => l.eval a b
         | none => match a, b with
-          | tuple x, tuple y => if (x ++ y).all hashable then .ok (tuple (distinct (x ++ y))) else .error .type
+          | tuple x, tuple y =>
+            -- `toList(distinct(lst1 + lst2))`: the distinct members are pulled through the limiter of `toList`
+            if !(x ++ y).all hashable then (if opts.limit.isSome then .error .outOfDomain else .error .type)
+            else if overLimit opts (distinct (x ++ y)).length then .error .tooLarge
+            else .ok (tuple (distinct (x ++ y)))
           | _, _ => .error .outOfDomain
       let imF (a b : Value) : R Value := match im with | some l => l.eval a b | none => .ok b
       -- a nested merge leaves plain (unhashable) dicts inside the result: the model does not track those
@@ -1131,11 +1344,11 @@ def runOp1 (op : Op) (o : Obj) : R Obj :=
       | .val v => Value.isIterable v
       | _ => true)))
   | .defaultIfEmpty dflt => do
-    let s ← o.it false
+    let s ← o.it opts false
     match o with
     | .val (tuple l) | .val (list l) | .val (Value.set l) | .dset l =>
       pure (if l.isEmpty then .val (tuple dflt) else o)
-    | .view .keys d | .view .items d => pure (if d.isEmpty then .val (tuple dflt) else o)
+    | .view .keys d | .view .items d | .val (dict d) => pure (if d.isEmpty then .val (tuple dflt) else o)
     | _ =>
       match s.items, s.err with
       | [], none => pure (.val (tuple dflt))
@@ -1148,26 +1361,30 @@ def runOp1 (op : Op) (o : Obj) : R Obj :=
   | .generateManyTake producer sel decycle depthFirst n =>
     match o with
     | .val (iter _) | .lazy _ | .ordering _ _ | .view _ _ | .dset _ | .mdict _ | .opaque _ => .error .outOfDomain
-    | .val v => if n < 0 then .error .value else pure (.lazy (generateManyM producer sel decycle depthFirst 400 n.toNat [v] []))
+    | .val v =>
+      if opts.limit.isSome then .error .outOfDomain     -- (what the producer returns passes the limiter: not followed)
+      else if n < 0 then .error .value else pure (.lazy (generateManyM producer sel decycle depthFirst 400 n.toNat [v] []))
   -- collections.py
   | .listFn =>
     match o with
-    | .val (iter l) => .ok (.val (tuple (list_ [iter l])))
-    | .lazy s => do let xs ← s.toList; pure (.val (tuple xs))
+    | .val (iter l) => do let s ← o.it opts; let _ ← s.toList; pure (.val (tuple (list_ [iter l])))
+    | .lazy _ => do let s ← o.it opts; let xs ← s.toList; pure (.val (tuple xs))
     | .val v => .ok (.val (tuple [v]))
-    | .dset l => .ok (.val (tuple [Value.set l]))
+    | .dset l => if l.length > 1 then .error .outOfDomain else .ok (.val (tuple [Value.set l]))   -- (embedding it loses "order unknown")
     | .ordering _ _ | .view _ _ | .mdict _ | .opaque _ => .error .outOfDomain
   | .flatten => do
-    let s ← o.it
+    let s ← o.it opts
+    -- every nested collection passes the limiter when it is reached: not followed
+    if (match opts.limit with | some n => overNestedL n s.items | none => false) then .error .outOfDomain
     -- nested iterables are finished data here, so only the source can fail, at its end
     pure (.lazy (s.lift flatten))
-  | .toList => do let s ← o.it; let xs ← s.toList; pure (.val (tuple xs))
+  | .toList => do let s ← o.it opts; let xs ← s.toList; pure (.val (tuple xs))
   | .listLit extra =>
     match o with
     | .val (iter _) | .lazy _ | .ordering _ _ | .view _ _ | .dset _ | .mdict _ | .opaque _ => .error .outOfDomain
     | .val v => .ok (.val (tuple (v :: extra)))
   | .dictFn => do
-    let s ← (match o.iterable? true with | some r => r | none => .error (match o with | .val (str _) => .outOfDomain | _ => .noFunction) : R LSeq)
+    let s ← (match o.iterable? opts true with | some r => r | none => .error (match o with | .val (str _) => .outOfDomain | _ => .noFunction) : R LSeq)
     let rec go : VL → KV → R KV
       | [], d => .ok d
       | t :: ts, d =>
@@ -1183,7 +1400,7 @@ def runOp1 (op : Op) (o : Obj) : R Obj :=
     | some e => .error e
     | none => pure (.val (dict d))
   | .toDict k v => do
-    let s ← o.it
+    let s ← o.it opts
     let rec goD : VL → KV → R KV
       | [], d => .ok d
       | x :: xs, d => do
@@ -1227,8 +1444,8 @@ def runOp1 (op : Op) (o : Obj) : R Obj :=
   | .items => match o with | .val (dict d) => .ok (.view .items d) | o => .error (badReceiver o)
   | .inOp v => match o with
     | .val (str _) => .error .outOfDomain
-    | o => memberOf o v .noFunction
-  | .contains v => memberOf o v (badReceiver o)
+    | o => memberOf opts o v .noFunction
+  | .contains v => memberOf opts o v (badReceiver o)
   | .containsKey k =>
     match o with
     | .val (dict d) => if hashable k then .ok (.val (bool (containsKey d k))) else .error .type
@@ -1239,40 +1456,44 @@ def runOp1 (op : Op) (o : Obj) : R Obj :=
     | o => .error (badReceiver o)
   | .plusRight r =>
     match o, r with
-    | .val (tuple a), tuple b => .ok (.val (tuple (a ++ b)))
+    | .val (tuple a), tuple b => do let _ ← limitSized opts a; let _ ← limitSized opts b; pure (.val (tuple (a ++ b)))
     | .val (dict a), dict b => .ok (.val (dict (combineDicts a b)))
-    | .val (Value.set a), Value.set b | .dset a, Value.set b => .ok (.dset (sUnion a b))
+    | .val (Value.set a), Value.set b | .dset a, Value.set b => do
+      let _ ← limitSized opts a; let _ ← limitSized opts b; pure (.dset (sUnion a b))
     | .val (int a), int b => .ok (.val (int (a + b)))
     | .val (flt a), int b => do let v ← plus (flt a) (int b); pure (.val v)
     | .val (int a), flt b => do let v ← plus (int a) (flt b); pure (.val v)
     | .val (flt a), flt b => do let v ← plus (flt a) (flt b); pure (.val v)
     | .val (str _), _ => .error .outOfDomain
     | o, r =>
-      match o.iterable? true with
+      match o.iterable? opts true with
       | some s =>
-        if Value.isIterable r then
+        if Value.isIterable r || (opts.iterableDicts && r matches dict _) then
           (match r with
            | Value.set l => if l.length > 1 then .error .outOfDomain else do let s ← s; pure (.lazy (s.thenList l))
-           | r => do let s ← s; pure (.lazy (s.thenList (elems r))))
+           | dict d => do let s ← s; let _ ← limitSized opts (dictKeys d); pure (.lazy (s.thenList (dictKeys d)))
+           | r => do let s ← s; let _ ← limitSized opts (elems r); pure (.lazy (s.thenList (elems r))))
         else .error .noFunction
       | none => .error .noFunction
   | .plusLeft l =>
     match l, o with
-    | tuple a, .val (tuple b) => .ok (.val (tuple (a ++ b)))
+    | tuple a, .val (tuple b) => do let _ ← limitSized opts a; let _ ← limitSized opts b; pure (.val (tuple (a ++ b)))
     | dict a, .val (dict b) => .ok (.val (dict (combineDicts a b)))
-    | Value.set a, .val (Value.set b) | Value.set a, .dset b => .ok (.dset (sUnion a b))
+    | Value.set a, .val (Value.set b) | Value.set a, .dset b => do
+      let _ ← limitSized opts a; let _ ← limitSized opts b; pure (.dset (sUnion a b))
     | int a, .val (int b) => .ok (.val (int (a + b)))
     | flt a, .val (int b) => do let v ← plus (flt a) (int b); pure (.val v)
     | int a, .val (flt b) => do let v ← plus (int a) (flt b); pure (.val v)
     | flt a, .val (flt b) => do let v ← plus (flt a) (flt b); pure (.val v)
     | _, .val (str _) => .error .outOfDomain
     | l, o =>
-      match o.iterable? true with
+      match o.iterable? opts true with
       | some s =>
-        if Value.isIterable l then
+        if Value.isIterable l || (opts.iterableDicts && l matches dict _) then
           (match l with
            | Value.set x => if x.length > 1 then .error .outOfDomain else do let s ← s; pure (.lazy (LSeq.cons x s))
-           | l => do let s ← s; pure (.lazy (LSeq.cons (elems l) s)))
+           | dict d => do let _ ← limitSized opts (dictKeys d); let s ← s; pure (.lazy (LSeq.cons (dictKeys d) s))
+           | l => do let _ ← limitSized opts (elems l); let s ← s; pure (.lazy (LSeq.cons (elems l) s)))
         else .error .noFunction
       | none => .error .noFunction
   | .timesInt n =>
@@ -1288,9 +1509,12 @@ def runOp1 (op : Op) (o : Obj) : R Obj :=
   | .isSet => .ok (.val (bool (match o with | .val (Value.set _) | .dset _ | .view .keys _ | .view .items _ => true | _ => false)))
   | .delete args =>
     match o with
-    | .val (dict d) => if args.all hashable then .ok (.val (dict (dictDelete d args))) else .error .type
+    | .val (dict d) =>
+      -- under `yaql.iterableDicts` `delete(position[, count])` of a collection accepts the dictionary as well
+      if opts.iterableDicts && (match intArgs args with | some [_] | some [_, _] => true | _ => false) then .error .ambiguous
+      else if args.all hashable then .ok (.val (dict (dictDelete d args))) else .error .type
     | o =>
-      match o.iterable? true, intArgs args with
+      match o.iterable? opts true, intArgs args with
       | some s, some [pos] => do let s ← s; pure (.lazy (s.lift (delete pos 1)))
       | some s, some [pos, count] => do let s ← s; pure (.lazy (s.lift (delete pos count)))
       | _, _ => .error (badReceiver o)
@@ -1298,32 +1522,35 @@ def runOp1 (op : Op) (o : Obj) : R Obj :=
     match o with
     | .val (dict d) => if keys.all hashable then .ok (.val (dict (dictDelete d keys))) else .error .type
     | o => .error (badReceiver o)
-  | .replace pos v count => do let s ← o.it; pure (.lazy (s.lift (replace pos (count.getD 1) v)))
-  | .replaceMany pos vals count => do let s ← o.it; pure (.lazy (s.lift (replaceMany pos (count.getD 1) vals)))
+  | .replace pos v count => do let s ← o.it opts; pure (.lazy (s.lift (replace pos (count.getD 1) v)))
+  | .replaceMany pos vals count => do let s ← o.it opts; pure (.lazy (s.lift (replaceMany pos (count.getD 1) vals)))
   | .insert pos v =>
     match o with
     | .val (tuple l) | .val (list l) => .ok (.val (list (listInsert pos v l)))
     | .val (Value.set _) | .dset _ | .view .keys _ | .view .items _ => .error .noMethod
     | o => do
-      let s ← o.it
+      let s ← o.it opts
       -- generator: the value is yielded when index `pos` is reached, or after normal exhaustion
       if pos < 0 then pure (.lazy s)
       else if pos.toNat < s.items.length then pure (.lazy (s.lift (iterInsert pos v)))
       else pure (.lazy (s.thenList [v]))
   | .insertMany pos vals => do
-    let s ← o.it
+    let s ← o.it opts
     if pos < 0 then pure (.lazy (LSeq.cons vals s))
     else if pos.toNat < s.items.length then pure (.lazy (s.lift (insertMany pos vals)))
     else pure (.lazy (s.thenList vals))
   | .setFn =>
     match o with
-    | .val (iter l) => if l.all hashable then .ok (.dset (setOf [iter l])) else .error .type
-    | .lazy s => do let xs ← hashAll s; pure (.dset (sOfList xs))
+    | .val (iter l) => do
+      let s ← o.it opts
+      if s.err.isSome then do let xs ← hashAll s; pure (.dset (sOfList xs))
+      else if l.all hashable then .ok (.dset (setOf [iter l])) else .error .type
+    | .lazy _ => do let s ← o.it opts; let xs ← hashAll s; pure (.dset (sOfList xs))
     | .val v => if hashable v then .ok (.dset [v]) else .error .type
-    | .dset l => .ok (.dset [Value.set l])
+    | .dset l => if l.length > 1 then .error .outOfDomain else .ok (.dset [Value.set l])
     | .ordering _ _ | .view _ _ | .mdict _ | .opaque _ => .error .outOfDomain
   | .toSet => do
-    let s ← o.it false
+    let s ← o.it opts false
     let xs ← hashAll s
     pure (.dset (toSet xs))
   | .union other => setBin union o other
@@ -1361,7 +1588,7 @@ def runOp1 (op : Op) (o : Obj) : R Obj :=
       | _ => setLe other a)))
   | .zipRoot _ | .joinRoot _ _ | .concatRoot _ | .partialThenFull _ => .error .outOfDomain   -- see `runOpR`
   | .unpack names k => do
-    let s ← o.it
+    let s ← o.it opts
     -- the length probe pulls len(names)+1 elements; with no names everything is pulled
     let probe := s.take (names.length + 1)
     let pulled ← probe.toList
@@ -1409,19 +1636,184 @@ def Op.linear : Op → Bool
   | .dictSetInline _ | .attr _ | .containsKey _ => true
   | _ => false
 
-def runOp (op : Op) (o : Obj) : R Obj := do
+/-- does the lambda call a collection method (`first`, `where`, `sum` ...) on a sub-expression?  `Lam.evalR` rejects a
+    dictionary there, which is the behaviour without `yaql.iterableDicts`. -/
+def Lam.seqMethods : Lam → Bool
+  | .arg | .const _ => false
+  | .add l _ | .mul l _ | .mod l _ | .gt l _ | .eq l _ | .member l _ | .index l _ | .not l | .len l | .strOf l | .half l
+  | .rangeOf l => l.seqMethods
+  | .pair a b => a.seqMethods || b.seqMethods
+  | .first _ _ | .last _ _ | .single _ | .sum _ | .whereIn _ _ | .selectIn _ _ | .takeIn _ _ => true
+
+/-- does the lambda take the `len` of a sub-expression?  (`lenV` measures a set, which a context made with `no_sets` cannot) -/
+def Lam.usesLen : Lam → Bool
+  | .arg | .const _ => false
+  | .len _ => true
+  | .add l _ | .mul l _ | .mod l _ | .gt l _ | .eq l _ | .member l _ | .index l _ | .not l | .strOf l | .half l
+  | .rangeOf l | .first l _ | .last l _ | .single l | .sum l | .takeIn l _ => l.usesLen
+  | .pair a b | .whereIn a b | .selectIn a b => a.usesLen || b.usesLen
+
+def Lam2.usesLen : Lam2 → Bool
+  | .on1 l | .on2 l | .plusOn l => l.usesLen
+  | _ => false
+
+def Lam2.seqMethods : Lam2 → Bool
+  | .on1 l | .on2 l | .plusOn l => l.seqMethods
+  | _ => false
+
+def Op.lamSeqMethods : Op → Bool
+  | .where_ l | .select l | .selectMany l | .orderBy l | .orderByDescending l | .thenBy l | .thenByDescending l
+  | .takeWhile l | .skipWhile l | .indexWhere l | .lastIndexWhere l | .splitWhere l | .sliceWhere l => l.seqMethods
+  | .distinct l | .any_ l | .all_ l => (l.map Lam.seqMethods).getD false
+  | .groupBy k v a => k.seqMethods || (v.map Lam.seqMethods).getD false || (a.map Lam.seqMethods).getD false
+  | .toDict k v => k.seqMethods || (v.map Lam.seqMethods).getD false
+  | .join _ f g | .joinRoot f g => f.seqMethods || g.seqMethods
+  | .aggregate f _ | .accumulate f _ => f.seqMethods
+  | .mergeWith _ f g _ => (f.map Lam2.seqMethods).getD false || (g.map Lam2.seqMethods).getD false
+  | .generate a b c _ _ => a.seqMethods || b.seqMethods || (c.map Lam.seqMethods).getD false
+  | .generateManyTake a b _ _ _ => a.seqMethods || (b.map Lam.seqMethods).getD false
+  | _ => false
+
+def Op.lamUsesLen : Op → Bool
+  | .where_ l | .select l | .selectMany l | .orderBy l | .orderByDescending l | .thenBy l | .thenByDescending l
+  | .takeWhile l | .skipWhile l | .indexWhere l | .lastIndexWhere l | .splitWhere l | .sliceWhere l => l.usesLen
+  | .distinct l | .any_ l | .all_ l => (l.map Lam.usesLen).getD false
+  | .groupBy k v a => k.usesLen || (v.map Lam.usesLen).getD false || (a.map Lam.usesLen).getD false
+  | .toDict k v => k.usesLen || (v.map Lam.usesLen).getD false
+  | .join _ f g | .joinRoot f g => f.usesLen || g.usesLen
+  | .aggregate f _ | .accumulate f _ => f.usesLen
+  | .mergeWith _ f g _ => (f.map Lam2.usesLen).getD false || (g.map Lam2.usesLen).getD false
+  | .generate a b c _ _ => a.usesLen || b.usesLen || (c.map Lam.usesLen).getD false
+  | .generateManyTake a b _ _ _ => a.usesLen || (b.map Lam.usesLen).getD false
+  | _ => false
+
+mutual
+def holdsSet : Value → Bool
+  | Value.set _ => true
+  | tuple l | list l | iter l => holdsSetL l
+  | dict d => holdsSetP d
+  | _ => false
+def holdsSetL : List Value → Bool
+  | [] => false
+  | x :: xs => holdsSet x || holdsSetL xs
+def holdsSetP : List (Value × Value) → Bool
+  | [] => false
+  | (k, v) :: r => holdsSet k || holdsSet v || holdsSetP r
+end
+
+mutual
+def holdsDict : Value → Bool
+  | dict _ => true
+  | tuple l | list l | Value.set l | iter l => holdsDictL l
+  | _ => false
+def holdsDictL : List Value → Bool
+  | [] => false
+  | x :: xs => holdsDict x || holdsDictL xs
+end
+
+/-- is there a dictionary among the things the object's elements are made of? -/
+def Obj.holdsDict : Obj → Bool
+  | .val (dict d) | .mdict d | .view _ d => holdsDictL (dictValues d) || holdsDictL (dictKeys d)
+  | .val v | .opaque v => Yaql.Seq.holdsDict v
+  | .dset l => holdsDictL l
+  | .lazy s | .ordering s _ => holdsDictL s.items
+
+/-- the collections among the arguments (parameters declared `Iterable()`): each passes the limiter when the call is made -/
+def Op.collArgs : Op → List VL
+  | .concat colls | .zip colls | .zipLongest colls _ => colls
+  | .join other _ _ => [other]
+  | .defaultIfEmpty d => [d]
+  | .deleteAll ks => [ks]
+  | .insertMany _ vals | .replaceMany _ vals _ => [vals]
+  | _ => []
+
+/-- `memorize` / `defaultIfEmpty` return a sized receiver itself -/
+def Op.handsBack : Op → Bool
+  | .memorize | .defaultIfEmpty _ => true
+  | _ => false
+
+/-- does the operation add elements up with yaql's `+`?  (`plus` rejects a dictionary operand next to a collection, which is
+    the behaviour without `yaql.iterableDicts`) -/
+def Op.usesPlus : Op → Bool
+  | .sum _ => true
+  | .aggregate f _ | .accumulate f _ => (match f with | .plus | .plusOn _ => true | _ => false)
+  | .join _ f g | .joinRoot f g => (match f, g with | .plus, _ | _, .plus | .plusOn _, _ | _, .plusOn _ => true | _, _ => false)
+  | .mergeWith _ f g _ => f.isSome || g.isSome
+  | _ => false
+
+/-- what a context made with `create_context(no_sets=True)` lacks: the set functions (`set(..)`, `isSet(..)`: no such
+    function; `toSet`, `union` ...: no such method; a set literal among the arguments of `-` / `<` / `+` is a call of `set`) -/
+def Op.needsSets : Op → Option Err
+  | .setFn | .isSet => some .unknownFunction
+  | .toSet | .union _ | .intersect _ | .difference _ | .symmetricDifference _ | .add _ | .remove _ => some .unknownMethod
+  | .minus _ | .setCmp _ _ => some .unknownFunction
+  | .plusRight (Value.set _) | .plusLeft (Value.set _) => some .unknownFunction
+  | _ => none
+
+/-- a dictionary among the arguments the operation hands to its lambdas / to `+` -/
+def Op.argsHoldDict : Op → Bool
+  | .sum (some v) | .aggregate _ (some v) | .accumulate _ (some v) => Yaql.Seq.holdsDict v
+  | .mergeWith other _ _ _ => holdsDictL (dictValues other)
+  | .join other _ _ => holdsDictL other
+  | _ => false
+
+/-- the values the object's elements are made of -/
+def Obj.parts : Obj → VL
+  | .val (dict d) | .mdict d => dictValues d ++ dictKeys d
+  | .view k d => viewElems k d
+  | .val (tuple l) | .val (list l) | .val (Value.set l) | .val (iter l) | .dset l => l
+  | .val _ | .opaque _ => []
+  | .lazy s | .ordering s _ => s.items
+
+/-- a non-empty collection among the arguments the operation hands to `+` -/
+def Op.argsHoldColl : Op → Bool
+  | .sum (some v) | .aggregate _ (some v) | .accumulate _ (some v) => overNested 0 v
+  | .mergeWith other _ _ _ => overNestedL 0 (dictValues other)
+  | .join other _ _ => overNestedL 0 other
+  | _ => false
+
+def noSetsErr (op : Op) (o : Obj) : Option Err :=
+  match op.needsSets with
+  | some e => some e
+  | none =>
+    match op, o with
+    | .len, .val (Value.set _) | .len, .view .keys _ | .len, .view .items _ => some .noMethod   -- (the `len` of sets is one of the set functions)
+    | _, _ => none
+
+def runOpCore (opts : Opts) (op : Op) (o : Obj) : R Obj := do
   if o.carriesLazy && !op.linear then .error .outOfDomain
-  let r ← match o with
+  -- under `yaql.limitIterators` the operands of `+` pass the limiter: `plus` does not follow that (collections added up)
+  -- ... and so do the receivers of collection methods inside a lambda (`Lam.evalR` does not follow that either)
+  if opts.limit.isSome && (op.usesPlus || op.lamSeqMethods) && !(match op with | .mergeWith _ none none _ => true | _ => false)
+      && (overNestedL 0 o.parts || op.argsHoldColl) then .error .outOfDomain
+  -- under `yaql.iterableDicts` a collection method inside a lambda, and `+`, accept a dictionary: `Lam.evalR` / `plus` do
+  -- not follow that
+  if opts.iterableDicts && (op.lamSeqMethods || op.usesPlus) && (o.holdsDict || op.argsHoldDict) then .error .outOfDomain
+  let r : R Obj := match o with
     | .opaque _ => .error .outOfDomain
     | .mdict d =>
       match op with
       | .setFn => .error .type                                   -- unhashable
       | .listLit _ | .listFn | .repeatTake _ _ | .generate _ _ _ _ _ | .generateManyTake _ _ _ _ _ => .error .outOfDomain   -- (embedding it loses the distinction)
-      | op => runOp1 op (.val (dict d))
-    | o => runOp1 op o
+      | op => runOp1 opts op (.val (dict d))
+    | o => runOp1 opts op o
+  -- the arguments are converted (and limited) once an overload has accepted the receiver, before the function runs
+  let r ← (match r with
+    | .error .noMethod | .error .noFunction | .error .unknownFunction | .error .ambiguous | .error .outOfDomain => r
+    | r => if op.collArgs.any (fun l => overLimit opts l.length) then .error .tooLarge else r : R Obj)
   match r with
-  | .val (dict d) => pure (if mutableResult op then .mdict d else r)
+  | .val (dict d) =>
+    pure (if mutableResult op || (op.handsBack && (match o with | .mdict _ => true | _ => false)) then .mdict d else r)
   | r => pure r
+
+/-- one operation on a run-time object, under the engine's options and the context's flags -/
+def runOp (opts : Opts) (op : Op) (o : Obj) : R Obj :=
+  match (if opts.noSets then noSetsErr op o else none) with
+  | some e => .error e
+  | none =>
+    -- (`len` inside a lambda on a set that is an ELEMENT: `lenV` does not know the flag)
+    if opts.noSets && op.lamUsesLen && holdsSetL o.parts then .error .outOfDomain
+    else runOpCore opts op o
 
 /-- the elements every fresh iteration of the expression's own `$` yields, when `$` can be iterated
     more than once: a sequence / input set, or a one-shot iterator that was memorized by the binder
@@ -1437,43 +1829,157 @@ def rootItems (binder : Option Op) (data : Value) : Option VL :=
   | _, _ => none
 
 /-- operations that iterate the root `$` again -/
-def runOpR (root : Option VL) (op : Op) (o : Obj) : R Obj :=
+def runOpR (opts : Opts) (root : Option VL) (op : Op) (o : Obj) : R Obj :=
+  if (match op with | .zipRoot _ | .joinRoot _ _ | .concatRoot _ | .partialThenFull _ => true | _ => false) && opts.limit.isSome
+  then .error .outOfDomain      -- (a second consumer of `$` under `yaql.limitIterators`: not followed)
+  else
   match op with
   | .zipRoot skips =>
     match root with
     | none => .error .outOfDomain
     | some xs => do
-      let _ ← o.it            -- the receiver is evaluated first
+      let _ ← o.it opts            -- the receiver is evaluated first
       if skips.any (· < 0) then .error .value
-      else runOp (.zip (skips.map fun n => xs.drop n.toNat)) o
+      else runOp opts (.zip (skips.map fun n => xs.drop n.toNat)) o
   | .joinRoot pred sel =>
     match root with
     | none => .error .outOfDomain
-    | some xs => runOp (.join xs pred sel) o
+    | some xs => runOp opts (.join xs pred sel) o
   | .concatRoot n =>
     match root with
     | none => .error .outOfDomain
     | some xs => do
-      let _ ← o.it
-      if n < 0 then .error .value else runOp (.concat [xs.drop n.toNat]) o
+      let _ ← o.it opts
+      if n < 0 then .error .value else runOp opts (.concat [xs.drop n.toNat]) o
   | .partialThenFull k =>
     match root with
     | none => .error .outOfDomain
     | some xs => if k < 0 then .error .value
                  else .ok (.val (tuple [tuple (xs.take k.toNat), tuple xs, int xs.length]))
-  | op => runOp op o
+  | op => runOp opts op o
+
+/-- the root of an expression: the document as `$` sees it, rebound by the binder of `let(binder($)) -> ...` -/
+def rootObj (opts : Opts) (binder : Option Op) (data : Value) : R Obj := do
+  let d ← Obj.ofInput opts data
+  match binder with
+  | none => pure d
+  | some b => runOp opts b d
+
+/-- what `rootItems` is asked about: the document as bound to `$` -/
+def boundData (opts : Opts) (data : Value) : Value := if opts.convertInput then convertInput data else data
+
+/-- written in function style (`set(x)`, `isSet(x)`): the function is looked up BEFORE its argument - the stages in front of
+    it - is evaluated -/
+def Op.functionStyleSet : Op → Bool
+  | .setFn | .isSet => true
+  | .plusLeft (Value.set _) => true        -- (`set(..) + <stages>`: the left operand comes first)
+  | _ => false
+
+/-- what a second consumer of `$` reads (`none`: not followed - also a set document in a context without the set functions,
+    whose `$.len()` has no overload) -/
+def rootOf (opts : Opts) (binder : Option Op) (data : Value) : Option VL :=
+  if opts.noSets && (match data with | Value.set _ => true | _ => false) then none
+  else rootItems binder (boundData opts data)
+
+/-- the stages of a pipeline, before finalisation -/
+def runStages (opts : Opts) (binder : Option Op) (ops : List Op) (data : Value) : R Obj := do
+  -- (the binder of `let(..) -> ..` is evaluated before the body)
+  let root ← rootObj opts binder data
+  -- in a context without the set functions an unknown function among the stages is met first, whatever the stages inside
+  -- it would do
+  if opts.noSets && ops.any Op.functionStyleSet then .error .unknownFunction
+  -- a second consumer of `$` under a limit / over a raw dictionary is not followed
+  ops.foldlM (fun o op => runOpR opts (rootOf opts binder data) op o) root
 
 /-- `let(binder($)) -> $.op1(...).op2(...)...` (or without binder), then finalisation -/
-def runPipeLet (binder : Option Op) (ops : List Op) (data : Value) : R Value := do
-  let root ← match binder with
-    | none => pure (Obj.ofValue data)
-    | some b => runOp b (Obj.ofValue data)
-  let o ← ops.foldlM (fun o op => runOpR (rootItems binder data) op o) root
-  finalise o
+def runPipeLet (opts : Opts) (binder : Option Op) (ops : List Op) (data : Value) : R Value := do
+  let o ← runStages opts binder ops data
+  finalise opts o
 
-/-- a pipeline `$.op1(...).op2(...)...`, then finalisation of the result -/
-def runPipe (ops : List Op) (data : Value) : R Value := do
-  let o ← ops.foldlM (fun o op => runOp op o) (Obj.ofValue data)
-  finalise o
+/-- a pipeline `$.op1(...).op2(...)...` over a document in run-time form, then finalisation of the result -/
+def runPipe (opts : Opts) (ops : List Op) (data : Value) : R Value := do
+  let o ← ops.foldlM (fun o op => runOp opts op o) (Obj.ofValue data)
+  finalise opts o
+
+/-! ### persistent updates: programs that observe the operand again after the update
+
+`insert`, `delete`, `set`, `replace`, `mergeWith`, `+` ... return a NEW collection.  In the model that is true by
+construction (every `runOp` is a function of its operand); what has to be checked against the code is that a program which
+looks at the operand again AFTER the update sees it unchanged.  `Obs` lists the shapes of such programs; the operand is the
+result of an arbitrary pipeline (so the mutable lists and dicts that `insert`, `splitAt`, `enumerate`, `toDict`, `delete`,
+`mergeWith` ... return occur as operands), or the unconverted document. -/
+
+inductive Obs where
+  | letPair (u : Op)          -- `let(x => P) -> [$x.u(..), $x]`
+  | letTwice (u1 u2 : Op)     -- `let(x => P) -> [$x.u1(..), $x.u2(..), $x]`
+  | letChain (u1 u2 : Op)     -- `let(x => P) -> let(y => $x.u1(..)) -> [$y.u2(..), $y, $x]`
+  | selPair (u : Op)          -- `P.select([$.u(..), $])`: the lambda argument used twice
+  | memPair (u : Op)          -- `let(m => P.memorize()) -> [$m.select($.u(..)).toList(), $m.toList()]`
+deriving Repr, Inhabited
+
+/-- can the value of a variable be read several times?  (a one-shot iterator cannot; an unsorted ordering re-sorts a
+    source that may be one: not followed) -/
+def Obj.rereadable : Obj → Bool
+  | .val (iter _) | .lazy _ | .ordering _ _ | .opaque _ => false
+  | o => !o.carriesLazy          -- (a generator inside it is consumed by whoever reads it first)
+
+/-- a run-time object as a member of a list literal / the result of a lambda.  `Value` has no plain dict and no generator
+    that raises when consumed later: the first is harmless when the member is only finalised (`plain = true`), the second
+    is not followed. -/
+def Obj.embed : Obj → R Value
+  | .val v => .ok v
+  | .dset l => .ok (Value.set l)
+  | .lazy ⟨l, none⟩ => .ok (iter l)
+  | .lazy ⟨_, some _⟩ => .error .outOfDomain
+  | .mdict d => .ok (dict d)
+  | .view .values d => .ok (iter (dictValues d))
+  | .view k d => .ok (list (viewElems k d))      -- (finalised like a list)
+  | .ordering _ _ | .opaque _ => .error .outOfDomain
+
+/-- the update applied to one ELEMENT of a collection, inside a lambda -/
+def updElem (opts : Opts) (u : Op) (x : Value) : R Value := do
+  if hasLazy x then .error .outOfDomain
+  let r ← runOp opts u (Obj.ofValue x)
+  r.embed
+
+/-- the parts of the list literal an observing program returns (or its single lazy result), before finalisation -/
+def runObs (opts : Opts) (obs : Obs) (o : Obj) : R (List Obj ⊕ Obj) :=
+  match obs with
+  | .letPair u => do
+    if !o.rereadable then .error .outOfDomain
+    let a ← runOp opts u o
+    pure (.inl [a, o])
+  | .letTwice u1 u2 => do
+    if !o.rereadable then .error .outOfDomain
+    let a ← runOp opts u1 o
+    let b ← runOp opts u2 o
+    pure (.inl [a, b, o])
+  | .letChain u1 u2 => do
+    if !o.rereadable then .error .outOfDomain
+    let y ← runOp opts u1 o
+    if !y.rereadable then .error .outOfDomain
+    let b ← runOp opts u2 y
+    pure (.inl [b, y, o])
+  | .selPair u => do
+    let s ← o.it opts
+    pure (.inr (.lazy (LSeq.mapM (fun x => do let a ← updElem opts u x; pure (tuple [a, x])) s.items s.err)))
+  | .memPair u => do
+    let m ← runOp opts .memorize o
+    let s ← m.it opts
+    let upd ← (LSeq.mapM (updElem opts u) s.items s.err).toList
+    pure (.inl [.val (tuple upd), .val (tuple s.items)])
+
+/-- finalisation of a list literal whose members are run-time objects: the literal is a tuple -/
+def finaliseParts (opts : Opts) (parts : List Obj) : R Value := do
+  if opts.convertOutput && overLimit opts parts.length then .error .tooLarge
+  let r ← parts.mapM (finalise opts)
+  pure (if opts.convertOutput && opts.tuplesToLists then list r else tuple r)
+
+/-- an observing program over the result of a pipeline -/
+def runObserve (opts : Opts) (binder : Option Op) (ops : List Op) (obs : Obs) (data : Value) : R Value := do
+  let o ← runStages opts binder ops data
+  match ← runObs opts obs o with
+  | .inl parts => finaliseParts opts parts
+  | .inr r => finalise opts r
 
 end Yaql.Seq
